@@ -231,6 +231,9 @@ static const vm_step VM_STEPS[] = {
 };
 static void op_MusigProg(const jv *in, jout *out) {
     const jv *steps = jv_get(in, "steps"); const jv *x; int k = 0;
+    /* everything logged so far is complete records: push it out, so that an abort inside the library
+     * (VERIFY_CHECK in the small-group builds) leaves whole lines only and is reported as a crash on THIS record */
+    fflush(stdout);
     memset(&VM, 0, sizeof(VM));
     jo_key(out, "res"); jo_raw(out, "[", 1);
     for (x = steps ? steps->child : NULL; x; x = x->next, k++) {
